@@ -35,8 +35,8 @@ inductive Target (P : Type) where
 /-- a call `require(<one string literal>)` / `require "<literal>"` met by the visitor -/
 structure Site (P : Type) where
   /-- a local named `require` is in scope at the call (`IdentifierTracker::is_identifier_used`).
-  Only the ENTRY file is walked with `ScopeVisitor`; required modules are walked with
-  `DefaultVisitor`, which never updates the tracker (finding F8). -/
+  Since the fix of finding F8 every file — the entry and every required module — is walked with
+  `ScopeVisitor`, so the flag is honoured everywhere. -/
   shadowed : Bool
   target : Target P
   deriving DecidableEq, Repr
@@ -112,7 +112,8 @@ section walk
 variable {P : Type} [DecidableEq P]
 
 /-- `try_inline_call` (mod.rs), with `inline_require` abstracted as `inl`.
-`isEntry`: the file being walked is the entry (walked with `ScopeVisitor`). -/
+`isEntry` (historical name): the file is walked with `ScopeVisitor`, i.e. shadowing of `require`
+is seen; since the fix of F8 this is `true` for the entry AND for required modules. -/
 def tryInline (inl : P → St P → Except (Err P) Nat × St P) (isEntry : Bool) (s : Site P) (st : St P) :
     Option Nat × St P :=
   -- `require_call`: `is_require_call` consults the identifier tracker
@@ -159,7 +160,8 @@ def inlineRequire (G : Graph P) : Nat → List P → P → St P → Except (Err 
           (.ok st.defs.length,
             { st with defs := st.defs ++ [(p, [])], cache := (p, st.defs.length) :: st.cache })
         | some (.lua sites ret) =>
-          let r := visit (inlineRequire G n (stack ++ [p])) false sites st
+          -- `ScopeVisitor::visit_block(&mut block, self)` (was `DefaultVisitor` before the fix of F8)
+          let r := visit (inlineRequire G n (stack ++ [p])) true sites st
           match ret with
           | .noReturn => (.error (.noReturn p), r.2)
           | .many => (.error (.manyReturn p), r.2)
@@ -191,14 +193,6 @@ def inline (G : Graph P) (entrySites : List (Site P)) : Except (List (Err P)) (B
   if b.errors.isEmpty then .ok b else .error b.errors
 
 end walk
-
-/-- H5: no call site inside a required module has a local `require` in scope (decidable).
-Inside this region the walk's `DefaultVisitor` blind spot (finding F8) cannot matter. -/
-def H5 {P : Type} (G : Graph P) : Bool :=
-  G.all fun e =>
-    match e.2 with
-    | .lua sites _ => sites.all fun s => !s.shadowed
-    | _ => true
 
 /-! ### module names (`generate_module_name`, `process/utils`: `Permutator`, `is_valid_identifier`) -/
 
